@@ -32,17 +32,17 @@ fn bump(c: &AtomicU8) {
 }
 
 // --- filters (contract of IpFilter::is_in: some boolean function of (filter, address); C31)
-static IN_DENY: AtomicBool = AtomicBool::new(false);
-static IN_ALLOW: AtomicBool = AtomicBool::new(false);
-static DENY_CALLS: AtomicU8 = AtomicU8::new(0);
-static ALLOW_CALLS: AtomicU8 = AtomicU8::new(0);
-static OTHER_FILTER_CALLS: AtomicU8 = AtomicU8::new(0);
-static ALLOW_BEFORE_DENY: AtomicBool = AtomicBool::new(false);
-static FILTER_WRONG_IP: AtomicBool = AtomicBool::new(false);
+static IN_DENY: crate::verif_common::Ghost<AtomicBool> = crate::verif_common::Ghost::new(0x6791818083a6361f, AtomicBool::new(false));
+static IN_ALLOW: crate::verif_common::Ghost<AtomicBool> = crate::verif_common::Ghost::new(0x67db2cbceef08b67, AtomicBool::new(false));
+static DENY_CALLS: crate::verif_common::Ghost<AtomicU8> = crate::verif_common::Ghost::new(0x672893b88c012c10, AtomicU8::new(0));
+static ALLOW_CALLS: crate::verif_common::Ghost<AtomicU8> = crate::verif_common::Ghost::new(0x6732ca501c25fdf1, AtomicU8::new(0));
+static OTHER_FILTER_CALLS: crate::verif_common::Ghost<AtomicU8> = crate::verif_common::Ghost::new(0x672d408cee8a3987, AtomicU8::new(0));
+static ALLOW_BEFORE_DENY: crate::verif_common::Ghost<AtomicBool> = crate::verif_common::Ghost::new(0x67acb14611addd05, AtomicBool::new(false));
+static FILTER_WRONG_IP: crate::verif_common::Ghost<AtomicBool> = crate::verif_common::Ghost::new(0x67918b4d2a2b2fc7, AtomicBool::new(false));
 // the client address the harness passes in (tag 4/6, high and low 64 bits)
-static IP_TAG: AtomicU8 = AtomicU8::new(0);
-static IP_HI: AtomicU64 = AtomicU64::new(0);
-static IP_LO: AtomicU64 = AtomicU64::new(0);
+static IP_TAG: crate::verif_common::Ghost<AtomicU8> = crate::verif_common::Ghost::new(0x6733d9f74795edcf, AtomicU8::new(0));
+static IP_HI: crate::verif_common::Ghost<AtomicU64> = crate::verif_common::Ghost::new(0x67939489911d94b3, AtomicU64::new(0));
+static IP_LO: crate::verif_common::Ghost<AtomicU64> = crate::verif_common::Ghost::new(0x675e21a42c48530f, AtomicU64::new(0));
 
 fn ip_key(ip: IpAddr) -> (u8, u64, u64) {
     match ip {
@@ -85,9 +85,9 @@ fn is_in_stub(_this: &IpFilter, addr: IpAddr) -> bool {
 }
 
 // --- rate-limit cache (contract of TimestampedCache::is_allowed: some boolean; proved under C20)
-static CACHE_RES: AtomicBool = AtomicBool::new(false);
-static CACHE_CALLS: AtomicU8 = AtomicU8::new(0);
-static CACHE_CALL_BEFORE_LISTS_PASSED: AtomicBool = AtomicBool::new(false);
+static CACHE_RES: crate::verif_common::Ghost<AtomicBool> = crate::verif_common::Ghost::new(0x67dfcf1e597c065d, AtomicBool::new(false));
+static CACHE_CALLS: crate::verif_common::Ghost<AtomicU8> = crate::verif_common::Ghost::new(0x67b93a48b8fb76e8, AtomicU8::new(0));
+static CACHE_CALL_BEFORE_LISTS_PASSED: crate::verif_common::Ghost<AtomicBool> = crate::verif_common::Ghost::new(0x67bd9a2f2a8aaecf, AtomicBool::new(false));
 
 fn is_allowed_stub<T: std::hash::Hash + Eq>(
     _this: &mut TimestampedCache<T>,
@@ -113,16 +113,16 @@ const GEN_ERR: u8 = 0;
 const GEN_DECRYPT_ERR: u8 = 1;
 const GEN_PLAIN: u8 = 2;
 const GEN_NTS: u8 = 3;
-static GEN_KIND: AtomicU8 = AtomicU8::new(0);
+static GEN_KIND: crate::verif_common::Ghost<AtomicU8> = crate::verif_common::Ghost::new(0x6728c26acbc0f57a, AtomicU8::new(0));
 // Case split (complete): every `handle` harness exists twice, for the parser outcomes without a
 // cookie (GEN_ERR | GEN_DECRYPT_ERR | GEN_PLAIN: "plain family") and for Ok((packet, Some(cookie)))
 // ("nts family"). The flag is a concrete constant per harness so that CBMC prunes the
 // Box<dyn Cipher> construction/drop glue (very expensive) from the plain family.
-static FAMILY_NTS: AtomicBool = AtomicBool::new(false);
-static DESER_CALLS: AtomicU8 = AtomicU8::new(0);
+static FAMILY_NTS: crate::verif_common::Ghost<AtomicBool> = crate::verif_common::Ghost::new(0x6778f539ec16e1f3, AtomicBool::new(false));
+static DESER_CALLS: crate::verif_common::Ghost<AtomicU8> = crate::verif_common::Ghost::new(0x67c02fc1a6a8fba2, AtomicU8::new(0));
 // mode() / version() of the generated packet
-static MODE: AtomicU8 = AtomicU8::new(0);
-static VERSION: AtomicU8 = AtomicU8::new(0);
+static MODE: crate::verif_common::Ghost<AtomicU8> = crate::verif_common::Ghost::new(0x67ff8696f82671ae, AtomicU8::new(0));
+static VERSION: crate::verif_common::Ghost<AtomicU8> = crate::verif_common::Ghost::new(0x67e3b57386a1b9c5, AtomicU8::new(0));
 const S2C_TAG: u8 = 0x5c;
 const C2S_TAG: u8 = 0xc5;
 
@@ -217,9 +217,9 @@ const B_DENY: u8 = 2;
 const B_NTS_DENY: u8 = 3;
 const B_TIME: u8 = 4;
 const B_NTS_TIME: u8 = 5;
-static BUILT: AtomicU8 = AtomicU8::new(B_NONE);
-static BUILD_CALLS: AtomicU8 = AtomicU8::new(0);
-static BUILD_COOKIE_TAG: AtomicU8 = AtomicU8::new(0);
+static BUILT: crate::verif_common::Ghost<AtomicU8> = crate::verif_common::Ghost::new(0x67b7cdfb7cdb1780, AtomicU8::new(B_NONE));
+static BUILD_CALLS: crate::verif_common::Ghost<AtomicU8> = crate::verif_common::Ghost::new(0x67f00668dc6be6d8, AtomicU8::new(0));
+static BUILD_COOKIE_TAG: crate::verif_common::Ghost<AtomicU8> = crate::verif_common::Ghost::new(0x672a8880e970d458, AtomicU8::new(0));
 
 fn built(code: u8) {
     bump(&BUILD_CALLS);
@@ -276,12 +276,12 @@ where
 
 // --- serializer model (contract of NtpPacket::serialize on a Cursor<&mut [u8]>: it only appends;
 //     on Ok the position advanced by some n <= remaining; on Err nothing is promised)
-static SER_OK: AtomicBool = AtomicBool::new(false);
-static SER_N: AtomicUsize = AtomicUsize::new(0);
-static SER_CALLS: AtomicU8 = AtomicU8::new(0);
-static SER_CIPHER_TAG: AtomicU8 = AtomicU8::new(0); // 0 = no cipher
-static SER_DESIRED_SOME: AtomicBool = AtomicBool::new(false);
-static SER_DESIRED: AtomicUsize = AtomicUsize::new(0);
+static SER_OK: crate::verif_common::Ghost<AtomicBool> = crate::verif_common::Ghost::new(0x670c1e785cd37da5, AtomicBool::new(false));
+static SER_N: crate::verif_common::Ghost<AtomicUsize> = crate::verif_common::Ghost::new(0x67ef7f098cdac956, AtomicUsize::new(0));
+static SER_CALLS: crate::verif_common::Ghost<AtomicU8> = crate::verif_common::Ghost::new(0x6778c1aa4b8bf584, AtomicU8::new(0));
+static SER_CIPHER_TAG: crate::verif_common::Ghost<AtomicU8> = crate::verif_common::Ghost::new(0x67dc63a9b830e306, AtomicU8::new(0)); // 0 = no cipher
+static SER_DESIRED_SOME: crate::verif_common::Ghost<AtomicBool> = crate::verif_common::Ghost::new(0x6725ceafea803dff, AtomicBool::new(false));
+static SER_DESIRED: crate::verif_common::Ghost<AtomicUsize> = crate::verif_common::Ghost::new(0x67d4f46a653ed8a9, AtomicUsize::new(0));
 
 fn serialize_model<'a>(
     _this: &NtpPacket<'a>,
@@ -314,11 +314,11 @@ where
 }
 
 // --- statistics recorder
-static REG_CALLS: AtomicU8 = AtomicU8::new(0);
-static REG_VERSION: AtomicU8 = AtomicU8::new(0);
-static REG_NTS: AtomicBool = AtomicBool::new(false);
-static REG_REASON: AtomicU8 = AtomicU8::new(0);
-static REG_RESPONSE: AtomicU8 = AtomicU8::new(0);
+static REG_CALLS: crate::verif_common::Ghost<AtomicU8> = crate::verif_common::Ghost::new(0x674c704d8447de48, AtomicU8::new(0));
+static REG_VERSION: crate::verif_common::Ghost<AtomicU8> = crate::verif_common::Ghost::new(0x67cf52bcf6632d11, AtomicU8::new(0));
+static REG_NTS: crate::verif_common::Ghost<AtomicBool> = crate::verif_common::Ghost::new(0x67a4f7618c0b9fd2, AtomicBool::new(false));
+static REG_REASON: crate::verif_common::Ghost<AtomicU8> = crate::verif_common::Ghost::new(0x67f9d56d3942d902, AtomicU8::new(0));
+static REG_RESPONSE: crate::verif_common::Ghost<AtomicU8> = crate::verif_common::Ghost::new(0x6769d3fa186c4eab, AtomicU8::new(0));
 const R_RATELIMIT: u8 = 1;
 const R_PARSE: u8 = 2;
 const R_CRYPTO: u8 = 3;
@@ -828,11 +828,11 @@ handle_harness! {
 // by its contract -- Err(Ignore) after exactly one registration, or Ok(arbitrary HandleInnerData) with no
 // registration -- and NtpPacket::serialize by its model (Err, or Ok after advancing the cursor by
 // n <= remaining). This isolates what C16 and C21 need from `handle` itself, at quick-tier cost.
-static HI_OK: AtomicBool = AtomicBool::new(false);
-static HI_ACTION: AtomicU8 = AtomicU8::new(0);
-static HI_REASON: AtomicU8 = AtomicU8::new(0);
-static HI_VERSION: AtomicU8 = AtomicU8::new(0);
-static HI_NTS: AtomicBool = AtomicBool::new(false);
+static HI_OK: crate::verif_common::Ghost<AtomicBool> = crate::verif_common::Ghost::new(0x67b1f6c2f511693b, AtomicBool::new(false));
+static HI_ACTION: crate::verif_common::Ghost<AtomicU8> = crate::verif_common::Ghost::new(0x67f678f801260e24, AtomicU8::new(0));
+static HI_REASON: crate::verif_common::Ghost<AtomicU8> = crate::verif_common::Ghost::new(0x677bf854c2f5e1fc, AtomicU8::new(0));
+static HI_VERSION: crate::verif_common::Ghost<AtomicU8> = crate::verif_common::Ghost::new(0x67f438d786bf8db9, AtomicU8::new(0));
+static HI_NTS: crate::verif_common::Ghost<AtomicBool> = crate::verif_common::Ghost::new(0x67178ac485ec30be, AtomicBool::new(false));
 fn reason_of(c: u8) -> ServerReason {
     match c {
         R_RATELIMIT => ServerReason::RateLimit,
@@ -1149,10 +1149,10 @@ handle_harness! {
 // ================================================================ C20 TimestampedCache
 // index(): memoised uninterpreted function. The harness knows the argument of each call, so the
 // table is indexed by call number; consistency (equal items => equal slot) is set up by the harness.
-static IDX_SEQ0: AtomicUsize = AtomicUsize::new(0);
-static IDX_SEQ1: AtomicUsize = AtomicUsize::new(0);
-static IDX_SEQ2: AtomicUsize = AtomicUsize::new(0);
-static IDX_CALLS: AtomicU8 = AtomicU8::new(0);
+static IDX_SEQ0: crate::verif_common::Ghost<AtomicUsize> = crate::verif_common::Ghost::new(0x67c011a661788900, AtomicUsize::new(0));
+static IDX_SEQ1: crate::verif_common::Ghost<AtomicUsize> = crate::verif_common::Ghost::new(0x670111e216201014, AtomicUsize::new(0));
+static IDX_SEQ2: crate::verif_common::Ghost<AtomicUsize> = crate::verif_common::Ghost::new(0x677f30872e78328a, AtomicUsize::new(0));
+static IDX_CALLS: crate::verif_common::Ghost<AtomicU8> = crate::verif_common::Ghost::new(0x6738825a70cb1c19, AtomicU8::new(0));
 fn index_uf<T: std::hash::Hash + Eq>(this: &TimestampedCache<T>, _item: &T) -> usize {
     let k = IDX_CALLS.load(Relaxed);
     bump(&IDX_CALLS);
